@@ -319,6 +319,26 @@ impl<'a> Interp<'a> {
                     Ok(Err(_)) => ("err", None),
                     Err(()) => ("panic", None),
                 };
+                // "into": build the new object in the storage of a live one (which is dropped in place by that)
+                let (res, obj) = match (obj, c.get("into").and_then(|v| v.as_str())) {
+                    (Some(ob), Some(slot)) => match self.objs.get_mut(slot).and_then(|sl| sl.obj.take()) {
+                        Some(mut old) => {
+                            let ty = ob.as_any().type_id();
+                            if old.as_any().type_id() == ty {
+                                let ok = Self::guarded(|| { let done = old.replace_with(ob); (done, old) });
+                                match ok {
+                                    Ok((true, old)) => (res, Some(old)),
+                                    Ok((false, _)) => panic!("harness: in-place construction refused"),
+                                    Err(()) => ("panic", None), // the old value's Drop panicked
+                                }
+                            } else {
+                                (res, Some(ob))
+                            }
+                        }
+                        None => (res, Some(ob)),
+                    },
+                    (ob, _) => (res, ob),
+                };
                 let cid = if key.len() == f.keylen() { f.cid(&key) } else { 0 };
                 let unit = obj.as_ref().map(|x| x.unit()).unwrap_or(0);
                 self.events.push(json!({"ev":"new","o":o,"kind":kind,"dir":dir,"c":cid,"w":f.w(),"bs":f.bs(),
